@@ -1,13 +1,15 @@
 /-
   Props/C14_ops.lean — property C14, part 2a: the per-operation state machine of async read / write
-  on io_epoll_context (model Proto/EpollOp.lean), configurations WITHOUT cancellation and without
-  injected errno failures.  For these the code delivers everything C14 asks:
-  `safe` (completes exactly once; the value is the byte count of the successful syscall; no
-  deadlock) ∧ `clean` (no access to a completed operation, no event for it, no epoll registration
-  left at the end) ∧ `errTrue`.
+  on io_epoll_context (model Proto/EpollOp.lean), configurations WITHOUT cancellation: data before /
+  after start, spurious EAGAIN, short count, write into a free / a full pipe, and syscalls failing
+  with a real errno (at start, after readiness).
+  `good` = `safe` (completes exactly once; the value is the byte count of the successful syscall;
+  done only after a stop request; no deadlock) ∧ `clean` (no access to a completed operation, no
+  event for it, no epoll registration left at the end) ∧ `errTrue` (a syscall failure with a real
+  errno is reported as that errno).
   INSTANCE theorems: each quantifies over every reachable state (= every schedule of every length)
   of one configuration; closure computed and re-checked by the kernel (`decide +kernel`).
-  The configurations with cancellation / errno failures are in Props/C14_cancel.lean.
+  The configurations with cancellation are in Props/C14_cancel.lean and Props/C14_race.lean.
 -/
 import UnifexModel.Proto.EpollOp
 
@@ -81,21 +83,42 @@ theorem wr_ready_ok : ∀ s, Reach (sys cfgWrReady) s → good cfgWrReady s = tr
 theorem wr_park_ok : ∀ s, Reach (sys cfgWrPark) s → good cfgWrPark s = true :=
   safe_of_check _ { coded with M := 127, W := 192 } 400 _ (by decide +kernel)
 
+/-- The first readv fails with EIO (errno 5): in every schedule the operation never parks (no stop
+    callback is constructed, nothing is registered with epoll) and — `good`, clause `errTrue` and
+    the end-state clause of `safe` — completes exactly once, with error 5. -/
+theorem rd_error_start_ok : ∀ s, Reach (sys cfgRdErrorStart) s →
+    (good cfgRdErrorStart s && s.reg == 0 && (getOp s 0).cb == 0) = true :=
+  safe_of_check _ { coded with M := 127, W := 192 } 400 _ (by decide +kernel)
+
+/-- The readv after readiness fails with EIO (errno 5): whenever the operation has completed it has
+    completed with error 5 (`errTrue`), exactly once, nothing left behind. -/
+theorem rd_error_retry_ok : ∀ s, Reach (sys cfgRdErrorRetry) s → good cfgRdErrorRetry s = true :=
+  safe_of_check _ { coded with M := 127, W := 192 } 400 _ (by decide +kernel)
+
+/-- existence of a reachable state, from an explicit schedule checked by the kernel -/
+theorem witness (cfg : Config) (cs : List Nat) (p : St → Bool)
+    (h : (match runChoices (sys cfg) (sys cfg).init cs with | some (_, s) => p s | none => false) = true) :
+    ∃ s, Reach (sys cfg) s ∧ p s = true := by
+  cases hr : runChoices (sys cfg) (sys cfg).init cs with
+  | none => simp [hr] at h
+  | some q =>
+    obtain ⟨ls, s⟩ := q
+    simp only [hr] at h
+    exact ⟨s, runChoices_reach _ _ _ _ _ Reach.init hr, h⟩
+
 /-- non-vacuity: the parked write really parks (EAGAIN, epoll registration) and later completes
     with the 8 bytes after the environment drained the pipe. -/
-def wrParkWitness : List Nat := List.replicate 27 0
+theorem wr_park_completes : ∃ s, Reach (sys cfgWrPark) s ∧
+    (final cfgWrPark s && (getOp s 0).outcome == 1 && (getOp s 0).val == 8 && s.calls == 2) = true :=
+  witness cfgWrPark (List.replicate 27 0) _ (by decide +kernel)
 
-example : ∃ s, Reach (sys cfgWrPark) s ∧ final cfgWrPark s = true ∧ (getOp s 0).outcome = 1 ∧
-    (getOp s 0).val = 8 ∧ s.calls = 2 := by
-  have h : (match runChoices (sys cfgWrPark) (sys cfgWrPark).init wrParkWitness with
-      | some (_, s) => final cfgWrPark s && decide ((getOp s 0).outcome = 1) && decide ((getOp s 0).val = 8) && decide (s.calls = 2)
-      | none => false) = true := by
-    decide +kernel
-  cases hr : runChoices (sys cfgWrPark) (sys cfgWrPark).init wrParkWitness with
-  | none => simp [hr] at h
-  | some p =>
-    obtain ⟨ls, s⟩ := p
-    simp only [hr, Bool.and_eq_true, decide_eq_true_eq] at h
-    exact ⟨s, runChoices_reach _ _ _ _ _ Reach.init hr, h.1.1.1, h.1.1.2, h.1.2, h.2⟩
+/-- non-vacuity: the failing reads do complete, with errno 5. -/
+theorem rd_error_start_completes : ∃ s, Reach (sys cfgRdErrorStart) s ∧
+    (final cfgRdErrorStart s && (getOp s 0).outcome == 3 && (getOp s 0).val == 5) = true :=
+  witness cfgRdErrorStart (List.replicate 16 0) _ (by decide +kernel)
+
+theorem rd_error_retry_completes : ∃ s, Reach (sys cfgRdErrorRetry) s ∧
+    (final cfgRdErrorRetry s && (getOp s 0).outcome == 3 && (getOp s 0).val == 5) = true :=
+  witness cfgRdErrorRetry (List.replicate 27 0) _ (by decide +kernel)
 
 end Unifex.Props.C14
